@@ -262,6 +262,20 @@ def run(ctx) -> None:
             ctx.check(case, lambda c: _run_l1(ctx, c))
     ctx.sweep("all cut sets of size <=3 for short streams", total, True)
 
+    # every boundary of the 16-bit size field: low byte near 0x00/0xFF for every high byte up to 16 (plus the largest sizes),
+    # a packet of that size followed by a small one, whole / cut in the header / cut near the end
+    z = 0
+    sizes = sorted({(hi << 8) | lo for hi in range(0, 17) for lo in (0x00, 0x01, 0x07, 0x08, 0xF7, 0xF8, 0xF9, 0xFE, 0xFF)} | {0x7FFF, 0x8000, 0xFFF0, 0xFFF7})
+    for size in sizes:
+        for cuts in ([], [3], [size + 7], [5, size // 2 + 8, size + 9]):
+            z += 1
+            if not ctx.mine(z) or (ctx.quick and size > 0x1100 and cuts):
+                continue
+            case = {"level": 1, "items": [{"body": _payload(size, size & 0xFF, size % 3 == 0).hex(), "garbage": "", "cnt": "%04x" % (size & 0xFFFF), "type": 3},
+                                          {"body": "a1b2c3", "garbage": "", "cnt": "0001", "type": 3}], "cuts": cuts}
+            ctx.check(case, lambda c: _run_l1(ctx, c))
+    ctx.sweep("size-field byte boundaries x segmentations", z, True)
+
     hexb = lambda s: s.map(lambda b: b.hex())
     body = st.one_of(gens.marker_bytes(64), st.binary(max_size=40),
                      st.integers(0, 5000).flatmap(lambda n: st.binary(min_size=n, max_size=n)),
